@@ -22,15 +22,19 @@ def PV(rate, periods, payment, future=None, type=None):
     if rate == 0:
         return -payment * periods - future
     else:
-        if rate > -1:
+        base = 1 + rate
+        if rate > -1 and base - 1 != rate:
             # (1 + rate)**periods - 1 without cancellation: for small rates the difference
             # of two numbers close to 1 loses most of its digits (rate 1e-9: 7 of 16)
             log_growth = periods * math.log1p(rate)
             growth = math.expm1(log_growth)
             compound = math.exp(log_growth)
         else:
+            # 1 + rate is exact (rate 1, -0.5, 0.25 ...): its power is correctly rounded, whereas
+            # exp(periods * log) multiplies its rounding by periods * log (PV(1,1000,0,1) was 300
+            # units in the last place off 2^-1000)
             # math.pow and not **: an integer rate of -2 or less with a huge integer number of
             # periods would be multiplied out exactly, for ever
-            compound = math.pow(1 + rate, periods)
+            compound = math.pow(base, periods)
             growth = compound - 1
         return ((-growth / rate) * payment * (1 + rate * type) - future) / compound
